@@ -361,6 +361,7 @@ func (e *c06Env) feedHeld(id uint32, n int, mid bool, sub string, sid uint32, m 
 	switch sub {
 	case "x":
 		e.lateWant = m != 0
+		e.lateTok, e.lateW = "", 0
 		e.closeBody(sid)
 		e.lateWant = false
 		tok = fmt.Sprintf("hx:%d:%d:%d", id, n, sid)
